@@ -127,6 +127,10 @@ beh("f03_window", ["C03"], [SUB("authorize", "none", nb=2, na=30), SUB("authoriz
                             SUB("authorize", "none", nb=-30, na=-2, skna=60, k="k2"), SUB("authorize", "none", nb=40, na=2000, sknb=-60, k="k3"),
                             SUB("fetch", "none", nb=-30, na=-40 + 2040, sknb=0), SUB("authorize", "none", nb=-3, na=3, e="e2", n="n2"),
                             dict(op="CreateRequest", k="fresh", e="fresh", n="fresh", s="none")])
+# invalid requests in the relayed shape (info re-wrapped by a registered intermediate): still refused, nothing written
+beh("f03_relayed", ["C03"], [A("k3", "e1", "n1"), dict(SUB("fetch", "flipSig"), relay=True), dict(SUB("fetch", "flipBundle"), relay=True), dict(SUB("fetch", "none", nb=-2000, na=-40), relay=True),
+                             dict(SUB("fetch", "none", nb=40, na=2000), relay=True), dict(SUB("fetch", "signedByOther", k="k2", e="e2", n="n2"), relay=True), dict(SUB("fetch", "noiseBundle"), relay=True),
+                             dict(SUB("fetch", "truncSig"), relay=True)])
 beh("f03_after_auth", ["C03"], [A("k1", "e1", "n1"), SUB("fetch", "flipSig"), SUB("fetch", "none", nb=-2000, na=-40), SUB("fetch", "none", nb=40, na=2000),
                                 SUB("fetch", "signedByOther"), SUB("fetch", "none")])
 
